@@ -32,6 +32,35 @@ pub struct Cfg {
     pub values: [String; 3],
     /// unique id carried by injected errors
     pub id: u64,
+    /// well-formed, not canonical checksum text written by H_CS_NONCANON ("" = default)
+    #[serde(default)]
+    pub cs_ok: String,
+    /// ill-formed checksum text written by H_CS_BAD ("" = default)
+    #[serde(default)]
+    pub cs_bad: String,
+}
+
+pub const CS_OK_TEXTS: &[&str] = &["B:FF,a:00Ab", "b:00,a:11", "A:00", "a:FF", "sha256:AB,md5:00,SHA1:cd", ":00", "a:", "x:00,É:11"];
+pub const CS_BAD_TEXTS: &[&str] = &[
+    "sha1:xyz", "sha1:00,sha1:11", "a:00,a:00", "a:0", "a", ",", "a:00,,b:11", "md5:00,MD5:11", "a:00,b:11,b:22", "a:00,", "é:00,É:11", "a:0g",
+];
+
+impl Cfg {
+    pub fn cs_ok_text(&self) -> &str {
+        if self.cs_ok.is_empty() {
+            CS_OK_TEXTS[0]
+        } else {
+            &self.cs_ok
+        }
+    }
+
+    pub fn cs_bad_text(&self) -> &str {
+        if self.cs_bad.is_empty() {
+            CS_BAD_TEXTS[0]
+        } else {
+            &self.cs_bad
+        }
+    }
 }
 
 #[derive(Clone, Debug, PartialEq, Eq, Default, Serialize, Deserialize)]
@@ -154,10 +183,10 @@ impl PurlShape for Shape {
             parts.qualifiers.insert("Hooked", "by hook & more").expect("valid key");
         }
         if h & H_CS_NONCANON != 0 {
-            parts.qualifiers.insert("checksum", "B:FF,a:00Ab").expect("valid key");
+            parts.qualifiers.insert("checksum", self.cfg.cs_ok_text()).expect("valid key");
         }
         if h & H_CS_BAD != 0 {
-            parts.qualifiers.insert("CHECKSUM", "sha1:xyz").expect("valid key");
+            parts.qualifiers.insert("CHECKSUM", self.cfg.cs_bad_text()).expect("valid key");
         }
         Ok(())
     }
@@ -187,10 +216,10 @@ pub fn model_edit(cfg: &Cfg, seen: &PartsSnap) -> PartsSnap {
         q.insert("hooked".into(), "by hook & more".into());
     }
     if h & H_CS_NONCANON != 0 {
-        q.insert("checksum".into(), "B:FF,a:00Ab".into());
+        q.insert("checksum".into(), cfg.cs_ok_text().into());
     }
     if h & H_CS_BAD != 0 {
-        q.insert("checksum".into(), "sha1:xyz".into());
+        q.insert("checksum".into(), cfg.cs_bad_text().into());
     }
     p.quals = q.into_iter().collect();
     p
@@ -222,7 +251,7 @@ pub fn all_cfgs() -> Vec<Cfg> {
         for hook in 0..(1u16 << HOOK_BITS) {
             for type_mode in 0..3u8 {
                 id += 1;
-                v.push(Cfg { conv_fails, hook, type_mode, values: Default::default(), id });
+                v.push(Cfg { conv_fails, hook, type_mode, values: Default::default(), id, cs_ok: String::new(), cs_bad: String::new() });
             }
         }
     }
